@@ -6,31 +6,49 @@ C  an independent parser per format (below, written from the format definitions)
    compares with the polyhedron; the Lean readers of Spec/MeshIO.lean (the ones of the round-trip theorems)
    are run on the real text as well.
 """
+import copy as _copy
 import html.parser
 import os
+import pathlib
 import re
+import struct
 import tempfile
 import xml.dom.minidom
+from fractions import Fraction
 
 import numpy as np
 
 import gen
-from common import L, ModelRaise, exc_kind
+import history
+import shapes_common
+from common import L, ModelRaise, exc_kind, f2h, read_shuffled
 
 RULE = ("convex solids from gen.convex_solid (35% prisms/antiprisms with n-gon caps n=3..12, else any kind), random "
         "rigid motion and offset (coordinates of both signs), half of them scaled by 10^U(-6,6) (values < 1e-4 print in "
-        "exponent notation), built as ConvexPolyhedron(vertices) or as Polyhedron(vertices, faces); every case is "
-        "exported in all seven formats directly and through save(); distinct = distinct (class, vertex array); "
-        "non-trivial = >= 4 vertices in convex position and a constructed shape")
+        "exponent notation), built as ConvexPolyhedron(vertices) or as Polyhedron(vertices, faces), a third of them "
+        "REACHED THROUGH MUTATORS (history.maybe_via_history); fixed tetrahedra / cubes at 1e-6..1e6, an irregular wedge "
+        "inside each of the eight octants and straddling the origin (both classes); boxes with one corner 1e-12..1e-3 "
+        "from the origin (tiny next to large coordinates); solids at scale 1e-12..1e12 (number-formatting clauses only); "
+        "every case is exported in all seven formats, in an order drawn per case, directly and through save(), then moved "
+        "with the centroid setter and exported once more; distinct = distinct (class, vertex array); non-trivial = >= 4 "
+        "vertices in convex position and a constructed shape")
 ASSUMPTIONS = [
-    "a coordinate token is what Python's str() prints for the numpy double; the model treats it as an opaque "
-    "well-formed token and the oracle checks float(token) == coordinate bitwise on the real file",
-    "STL facet normal tokens are a parameter of the model (taken from the real file) and are checked geometrically "
-    "by the oracle: parallel (1e-9 + rounding bound of the cross product) to the triangle's own normal, pointing out "
-    "of the solid; fan triangles must tile the face (boundary chain = face cycle, positive orientation, area 1e-8)",
+    "a coordinate token is what Python's str() prints for the numpy double; the MODEL prints it with floatRepr "
+    "(CPython format_float_short 'r') from the shortest round-trip digits, which the harness computes with exact "
+    "rational arithmetic (not with repr) and the driver certifies against the double (readsAsB, exact over Q); the "
+    "oracle checks float(token) == coordinate bit for bit and readsAsB(token, coordinate) on every coordinate token "
+    "of every real file",
+    "STL facet normals: the model computes np.cross(t1-t0, t2-t1) in IEEE doubles (compared bit for bit with the "
+    "printed normals) and prints them with floatRepr; the oracle checks them geometrically as well: parallel (1e-9 + "
+    "rounding bound of the cross product) to the triangle's own normal, pointing out of the solid; fan triangles must "
+    "tile the face (boundary chain = face cycle, positive orientation, area 1e-8)",
     "XML serialisation (element tree <-> text) is not proved: the model's ElementTree serialiser is compared byte for "
     "byte with the real file, which is re-parsed with expat/minidom (X3D) and html.parser (HTML)",
     "all generated solids are convex: 'outward' is tested per face against the vertex mean and by signed volume > 0",
+    "'exporting does not change the shape' is examined (a) bit for bit on every attribute of the instance dict after "
+    "every single export (new cache entries are allowed), (b) through every public observable against a twin built "
+    "the same way and never exported (shapes_common.observe/compare, 1e-9), (c) by an independent centroid / volume, "
+    "(d) by moving the shape afterwards with the centroid setter and re-reading one more exported file",
 ]
 
 FORMATS = ["OBJ", "OFF", "STL", "PLY", "VTK", "X3D", "HTML"]
@@ -617,6 +635,11 @@ def facets_of(reply):
     return [tuple([it.s(), it.s(), it.s()] for _ in range(4)) for _ in range(it.n())]
 
 
+def strs_of(reply):
+    it = _It(reply)
+    return [it.s() for _ in range(it.n())]
+
+
 def first_diff(a, b):
     k = next((i for i, (x, y) in enumerate(zip(a, b)) if x != y), min(len(a), len(b)))
     return {"offset": k, "impl": a[max(0, k - 30):k + 30], "model": b[max(0, k - 30):k + 30],
@@ -624,9 +647,79 @@ def first_diff(a, b):
 
 
 # ----------------------------------------------------------------------------------------------------------------
+# numbers: independent statement of the token grammar, shortest digits by exact arithmetic
 
 
-def build(case):
+NUM_RE = re.compile(r"[+-]?(?:[0-9]+(?:\.[0-9]*)?|\.[0-9]+)(?:[eE][+-]?[0-9]+)?\Z")
+BAD_NUMBERS = ["nan", "inf", "-inf", "1e", "e5", ".", "", "1_0", "0x10", "1.2.3", "--1", "1e5.0", " 1", "1 ", "1,5",
+               "+-1", "1e+-5", "#1", "1d5", "1.e", "Infinity"]
+GOOD_NUMBERS = ["1.5", "-2.5e-05", ".5", "5.", "1e+16", "1E3", "+3", "-0.0", "007", "1e-320", "12345678901234567890.5"]
+
+
+def bits_of(x):
+    return struct.unpack(">Q", struct.pack(">d", float(x)))[0]
+
+
+def shortest_digits(x):
+    """(neg, digits, decpt): the shortest decimal d1..dn * 10^(decpt-n) whose correctly rounded double is |x|, the one
+    nearest to |x| among those of that length (halfway: even last digit) — what dtoa mode 0 returns — computed with
+    exact rational arithmetic (no repr/str involved)."""
+    x = float(x)
+    neg = bits_of(x) >> 63 == 1
+    a = abs(x)
+    if a == 0:
+        return neg, [0], 1
+    D = Fraction(a)
+    e = len(str(D.numerator // D.denominator)) if D >= 1 else -(len(str(D.denominator // D.numerator)) - 1)
+    while Fraction(10) ** e <= D:
+        e += 1
+    while Fraction(10) ** (e - 1) > D:
+        e -= 1
+    for n in range(1, 18):
+        unit = Fraction(10) ** (e - n)
+        lo = (D / unit).__floor__()
+        best = None
+        for cand in (lo, lo + 1):
+            v = cand * unit
+            try:
+                fv = float(v)
+            except OverflowError:
+                fv = float("inf")
+            if fv == a:
+                key = (abs(v - D), cand % 2)
+                if best is None or key < best[0]:
+                    best = (key, cand)
+        if best is not None:
+            s = str(best[1])
+            dp = e + (len(s) - n)
+            s = s.rstrip("0") or "0"
+            return neg, [int(ch) for ch in s], dp
+    raise AssertionError("no 17-digit decimal reads back as %r" % x)
+
+
+def model_repr(ctx, values):
+    """`str(coord)` of the MODEL (floatRepr on the digits above) for a flat list of doubles"""
+    out = []
+    vals = [float(v) for v in values]
+    for i in range(0, len(vals), 600):
+        trip = [shortest_digits(v) for v in vals[i:i + 600]]
+        out += strs_of(ctx.driver.F("io.repr", L([[int(n), L(ds), int(k)] for n, ds, k in trip])))
+    return out
+
+
+def reads_as(ctx, pairs):
+    """pairs (token, double) -> list of bools: the Lean certificate `readsAsB` (exact over Q)"""
+    out = []
+    for i in range(0, len(pairs), 600):
+        r = ctx.driver.Q("io.readsas", L([[S(t), f2h(x)] for t, x in pairs[i:i + 600]]))
+        out += [bool(b) for b in r[1:]]
+    return out
+
+
+# ----------------------------------------------------------------------------------------------------------------
+
+
+def build_direct(case):
     import coxeter
     v = np.array(case["vertices"], dtype=float)
     cp = coxeter.shapes.ConvexPolyhedron(v)
@@ -635,57 +728,337 @@ def build(case):
     return coxeter.shapes.Polyhedron(np.array(cp.vertices), [[int(i) for i in f] for f in cp.faces])
 
 
-def snapshot(p):
-    """vertices and faces bitwise, plus the cached private arrays that exist on the object"""
-    extra = [np.asarray(getattr(p, a)).tobytes() for a in ("_equations", "_centroid", "_volume") if hasattr(p, a)]
-    return (np.array(p.vertices).tobytes(), [np.asarray(f).tobytes() for f in p.faces], extra)
+def build(case, ctx=None):
+    """the shape of the case; a third of the ordinary cases REACHED THROUGH MUTATORS (deterministic per case)"""
+    p = build_direct(case)
+    if case.get("extreme") or case.get("direct"):
+        return p, "direct"
+    return history.maybe_via_history(p, history.rng_for(case["vertices"]), 1.0 / 3.0, ctx)
+
+
+def _freeze(v):
+    if isinstance(v, np.ndarray):
+        return ("nd", v.dtype.str, v.shape, v.tobytes())
+    if isinstance(v, (list, tuple)):
+        return ("seq", tuple(_freeze(x) for x in v))
+    if isinstance(v, (float, np.floating)):
+        return ("f", struct.pack(">d", float(v)))
+    if isinstance(v, (int, bool, str, type(None), np.integer)):
+        return ("v", v if not isinstance(v, np.integer) else int(v))
+    if isinstance(v, dict):
+        return ("d", tuple(sorted((str(k2), _freeze(x)) for k2, x in v.items())))
+    return ("o", type(v).__name__)
+
+
+def deep_snapshot(p):
+    """every attribute in the instance dict, bit for bit (arrays, lists of arrays, floats); what the public getters
+    `vertices`, `faces` return is included explicitly"""
+    out = {k: _freeze(v) for k, v in p.__dict__.items()}
+    out["<vertices>"] = _freeze(np.asarray(p.vertices))
+    out["<faces>"] = _freeze([np.asarray(f) for f in p.faces])
+    return out
+
+
+def snapshot_diff(before, after):
+    """attributes that existed before and are missing / different afterwards (new cache entries are allowed)"""
+    return sorted(k for k in before if k not in after or after[k] != before[k])
+
+
+def independent_centroid_volume(V, F):
+    """divergence theorem on the fan triangles of the faces, about the vertex mean (no coxeter code)"""
+    c0 = V.mean(axis=0)
+    vol = 0.0
+    mom = np.zeros(3)
+    for f in F:
+        P = V[list(f)] - c0
+        for j in range(1, len(f) - 1):
+            d = np.dot(P[0], np.cross(P[j], P[j + 1])) / 6.0
+            vol += d
+            mom += d * (P[0] + P[j] + P[j + 1]) / 4.0
+    return c0 + mom / vol, vol
 
 
 WRITERS = {"OBJ": "to_obj", "OFF": "to_off", "STL": "to_stl", "PLY": "to_ply", "VTK": "to_vtk", "X3D": "to_x3d",
            "HTML": "to_html"}
+INDEXED = {"OBJ": parse_obj, "OFF": parse_off, "PLY": parse_ply, "VTK": parse_vtk}
+
+
+class Ref:
+    """the reference geometry a file is compared with (captured BEFORE any export)"""
+
+    def __init__(self, vertices, faces):
+        self.vertices = np.ascontiguousarray(vertices, dtype=np.float64).copy()
+        self.faces = [[int(i) for i in f] for f in faces]
+
+
+def check_file(ctx, case, ft, data, ref, emit_known=True, sig_suffix=""):
+    """C: independent parser on one real file + comparison with the reference geometry.
+    Returns (parsed coordinate tokens with the double each has to read as, stl facets or None)."""
+    sig = "io.%s:" % WRITERS[ft]
+    pairs = []
+    stl_facets = None
+    try:
+        text = data.decode("ascii")
+    except UnicodeDecodeError:
+        ctx.fail(sig + "not-ascii" + sig_suffix, "file is not ASCII text", case, ft)
+        return pairs, None
+    try:
+        if ft in INDEXED:
+            V, F, info = INDEXED[ft](text)
+            if info.get("stray_f") and emit_known:
+                ctx.fail("io.to_off:counts-line-stray-f",
+                         "OFF counts line has a stray 'f' before the face count; a reader of the format rejects the file",
+                         case, text.split("\n")[3])
+            compare_indexed(ref, V, F)
+            pairs = [(t, x) for vt_, vx in zip(V, ref.vertices) for t, x in zip(vt_, vx)]
+            d = info.get("declared")
+            if ft == "OFF" and d is not None:
+                und = set(frozenset(e) for f in F for e in zip(f, f[1:] + f[:1]))
+                if d != (len(V), len(F), len(und)):
+                    raise Bad("declared-counts", "declared %r, data has %r" % (d, (len(V), len(F), len(und))))
+            if ft == "PLY" and d is not None and d != (len(V), len(F)):
+                raise Bad("declared-counts", "declared %r, data has %r" % (d, (len(V), len(F))))
+            if ft == "VTK" and d is not None and d != (len(V), len(F), len(F) + sum(len(f) for f in F)):
+                raise Bad("declared-counts", "declared %r" % (d,))
+        elif ft == "STL":
+            stl_facets = parse_stl(text)
+            compare_stl(ref, stl_facets)
+            for n_tok, tri in stl_facets:
+                for corner in tri:
+                    x = to_floats([corner])[0]
+                    pairs += [(t, float(xx)) for t, xx in zip(corner, x)]   # corners were matched bitwise to vertices
+        elif ft == "X3D":
+            V, F, info = parse_x3d(data)
+            if info["case"] and emit_known:
+                ctx.fail("io.to_x3d:element-name-case",
+                         "X3D element names are written in the wrong case (XML names are case sensitive); a reader "
+                         "of the X3D XML encoding does not find the X3D / Shape elements",
+                         case, info["case"])
+            compare_expanded(ref, V, F)
+            pairs = [(t, float(x)) for vt_, vx in zip(V, to_floats(V)) for t, x in zip(vt_, vx)]
+        elif ft == "HTML":
+            V, F, info = parse_html(text)
+            compare_expanded(ref, V, F)
+            pairs = [(t, float(x)) for vt_, vx in zip(V, to_floats(V)) for t, x in zip(vt_, vx)]
+    except Bad as e:
+        ctx.fail(sig + e.clause + sig_suffix, "%s file does not describe the polyhedron (%s)" % (ft, e.clause), case,
+                 e.detail)
+        return [], stl_facets if ft == "STL" else None
+    # every coordinate token must be a number of the format (independent regex; the Lean grammar is run below)
+    for t, _ in pairs:
+        if not NUM_RE.match(t):
+            ctx.fail(sig + "coordinate-token-syntax" + sig_suffix, "%s coordinate token is not a decimal number" % ft,
+                     case, t)
+            break
+    return pairs, stl_facets
+
+
+# ---- tampered files: the readers (oracle parsers and Lean spec readers) must not accept wrong counts / indices
+
+
+def tampered_texts(ft, text):
+    """(name, tampered text) pairs: the same data with ONE declared count / index convention falsified"""
+    out = []
+    lines = text.split("\n")
+
+    def bump(line_no, tok_no, delta, name):
+        ls = list(lines)
+        toks = ls[line_no].split(" ")
+        m = re.fullmatch(r"([A-Za-z]*)([0-9]+)", toks[tok_no])
+        toks[tok_no] = m.group(1) + str(int(m.group(2)) + delta)
+        ls[line_no] = " ".join(toks)
+        out.append((name, "\n".join(ls)))
+
+    if ft == "PLY":
+        iv = next(i for i, l in enumerate(lines) if l.startswith("element vertex"))
+        jf = next(i for i, l in enumerate(lines) if l.startswith("element face"))
+        bump(iv, 2, +1, "vertex-count+1")
+        bump(iv, 2, -1, "vertex-count-1")
+        bump(jf, 2, +1, "face-count+1")
+        bump(jf, 2, -1, "face-count-1")
+    elif ft == "OFF":
+        bump(3, 0, +1, "vertex-count+1")
+        bump(3, 0, -1, "vertex-count-1")
+        bump(3, 1, +1, "face-count+1")
+        bump(3, 1, -1, "face-count-1")
+    elif ft == "VTK":
+        ip = next(i for i, l in enumerate(lines) if l.startswith("POINTS"))
+        jq = next(i for i, l in enumerate(lines) if l.startswith("POLYGONS"))
+        bump(ip, 1, +1, "points-count+1")
+        bump(ip, 1, -1, "points-count-1")
+        bump(jq, 1, +1, "polygons-count+1")
+        bump(jq, 2, +1, "polygons-size+1")
+        bump(jq, 2, -(len(lines) - jq - 1), "polygons-size=connections-only")
+    elif ft == "OBJ":
+        ls = [("f " + " ".join(str(int(t) - 1) for t in l.split()[1:])) if l.startswith("f ") else l for l in lines]
+        out.append(("zero-based-indices", "\n".join(ls)))
+        ls = [("f " + " ".join(str(int(t) + 1) for t in l.split()[1:])) if l.startswith("f ") else l for l in lines]
+        out.append(("indices+1", "\n".join(ls)))
+    elif ft == "X3D":
+        m = re.search(r'coordIndex="([^"]*)"', text)
+        idx = m.group(1).split(" ")
+        k = idx.index("-1")
+        out.append(("separator-dropped", text[:m.start(1)] + " ".join(idx[:k] + idx[k + 1:]) + text[m.end(1):]))
+        out.append(("index-out-of-range", text[:m.start(1)] + " ".join([str(len(idx))] + idx[1:]) + text[m.end(1):]))
+        m2 = re.search(r'point="([^"]*)"', text)
+        pts = m2.group(1).split(" ")
+        out.append(("point-dropped", text[:m2.start(1)] + " ".join(pts[3:]) + text[m2.end(1):]))
+        out.append(("end-tag-mismatch", text.replace("</Scene>", "</scene>")))
+    elif ft == "STL":
+        k = next(i for i, l in enumerate(lines) if l.strip().startswith("vertex"))
+        out.append(("vertex-line-dropped", "\n".join(lines[:k] + lines[k + 1:])))
+        k = next(i for i, l in enumerate(lines) if l.strip() == "endfacet")
+        out.append(("endfacet-dropped", "\n".join(lines[:k] + lines[k + 1:])))
+    return out
+
+
+LEAN_READER = {"OBJ": 0, "OFF": 2, "PLY": 3, "VTK": 4}
+
+
+def expanded_mesh(vt, faces):
+    """what an X3D IndexedFaceSet of coxeter denotes: one point per face corner, consecutive index ranges"""
+    V = [list(vt[i]) for f in faces for i in f]
+    F, k = [], 0
+    for f in faces:
+        F.append(list(range(k, k + len(f))))
+        k += len(f)
+    return V, F
+
+
+def tamper_test(ctx, case, ft, text, ref, mesh, facets):
+    """a file with ONE falsified count / index convention must fail the round trip: the oracle's parser + comparison
+    must reject it, and the Lean reader must return nothing or a mesh different from the shape's (`mesh`)"""
+    for name, bad in tampered_texts(ft, text):
+        # the oracle's parser + comparison
+        try:
+            if ft == "STL":
+                compare_stl(ref, parse_stl(bad))
+            elif ft == "X3D":
+                V, F, info = parse_x3d(bad.encode("ascii"))
+                compare_expanded(ref, V, F)
+            else:
+                V, F, info = INDEXED[ft](bad)
+                compare_indexed(ref, V, F)
+                d = info.get("declared")
+                if ft == "VTK" and d is not None and d != (len(V), len(F), len(F) + sum(len(f) for f in F)):
+                    raise Bad("declared-counts")
+            accepted = True
+        except Bad:
+            accepted = False
+        if accepted:
+            ctx.disagree("oracle.parser-accepts-tampered:%s:%s" % (ft, name), case, name)
+        # the Lean reader of the round-trip theorems
+        if ft == "STL":
+            r = facets_of(ctx.driver.Q("io.read_stl", S(bad)))
+            same = r is not None and [tuple(map(tuple, x)) for x in r] == facets
+        elif ft == "X3D":
+            r = mesh_of(ctx.driver.Q("io.read_xml", 1, S(bad)))
+            same = r is not None and (r[0], r[1]) == expanded_mesh(*mesh)
+        else:
+            r = mesh_of(ctx.driver.Q("io.read", LEAN_READER[ft], S(bad)))
+            same = r is not None and (r[0], r[1]) == mesh
+        if same:
+            ctx.disagree("spec.reader-accepts-tampered:%s:%s" % (ft, name), case, name)
+        ctx.count("tampered:%s:%s" % (ft, "rejected" if r is None else "different-mesh"))
+        ctx.count("tampered:%s" % ft)
+
+
+def grammar_selftest(ctx):
+    """the Lean number grammar and the regular expression above must accept / reject the same strings"""
+    for t in BAD_NUMBERS + GOOD_NUMBERS:
+        r = ctx.driver.Q("io.tokval", S(t))
+        lean_ok = r[0] == 1
+        if lean_ok != bool(NUM_RE.match(t)):
+            ctx.disagree("spec.tokValue-grammar", {"token": t}, [t, lean_ok])
+        if lean_ok:
+            try:
+                # Python's own conversion of the exact rational must be Python's own reading of the token
+                if float(Fraction(r[1])) != float(t):
+                    ctx.disagree("spec.tokValue-value", {"token": t}, [t, str(r[1])])
+            except (ValueError, OverflowError):
+                ctx.disagree("spec.tokValue-value", {"token": t}, t)
+
+
+# ----------------------------------------------------------------------------------------------------------------
 
 
 def eval_case(ctx, case):
     import coxeter
     from coxeter import io
     try:
-        p = build(case)
+        p, how = build(case, ctx)
+        twin, _ = build(case)
+        if np.asarray(p.vertices).tobytes() != np.asarray(twin.vertices).tobytes():
+            # the detour through the mutators was not reproducible bit for bit: judge the directly built shape
+            ctx.count("reached:history-not-reproducible")
+            p, twin, how = build_direct(case), build_direct(case), "direct"
     except Exception as e:
         # not an I/O matter (C15/C07): the case is dropped
         ctx.count("dropped:constructor-" + exc_kind(e))
         return
+    extreme = bool(case.get("extreme"))
     ver = coxeter.__version__
     cls = p.__class__.__name__
-    vt = [[str(c) for c in v] for v in p.vertices]
-    faces = [[int(i) for i in f] for f in p.faces]
+    ref = Ref(p.vertices, p.faces)
+    V0, faces = ref.vertices, ref.faces
+    size = shapes_common.size_of(p)
+    krng = history.rng_for([case["vertices"], "c20-order"])
     ctx.count("class:" + cls)
+    ctx.count("class:%s:%s" % (cls, "via-history" if how.startswith("via") else "direct"))
     for f in faces:
         ctx.count("face-degree:%d" % len(f))
-    ctx.count("tokens:exponent", sum(1 for v in vt for t in v if "e" in t))
-    ctx.count("tokens:negative", sum(1 for v in vt for t in v if t.startswith("-")))
-    ctx.count("tokens:plain", sum(1 for v in vt for t in v if "e" not in t))
-    mags = np.abs(p.vertices[p.vertices != 0])
-    if len(mags):
-        ctx.count("magnitude:1e%+03d" % int(np.floor(np.log10(mags.max()))))
-    snap0 = snapshot(p)
+    octant = "".join("+" if s > 0 else "-" for s in np.sign(V0.mean(axis=0) + 0.0))
+    straddle = bool(np.any((V0.min(axis=0) < 0) & (V0.max(axis=0) > 0)))
+    ctx.count("octant:%s%s" % (octant, ":straddles-a-coordinate-plane" if straddle else ""))
+    if np.any(V0 < 0):
+        ctx.count("class:%s:has-negative-coordinate" % cls)
+    for c in V0.ravel():
+        ctx.count("coordinate-magnitude:" + ("0" if c == 0 else "1e%+03d" % int(np.floor(np.log10(abs(c))))))
+
+    # ---------------- exports, in an order drawn per case; after EVERY export the shape must be bit for bit the same
+    snap0 = deep_snapshot(p)
     files = {}
-    with tempfile.TemporaryDirectory(prefix="c20-") as tmp:
-        for ft in FORMATS:
+    copies = []
+    use_pathlib = bool(krng.random() < 0.5)
+    ctx.count("filename:" + ("pathlib.Path" if use_pathlib else "str"))
+
+    def changed(where, ft):
+        nonlocal p, snap0
+        diff = snapshot_diff(snap0, deep_snapshot(p))
+        if diff:
+            ctx.fail(where + "mutates-shape", "exporting changed the shape (attributes %s differ bit for bit)" % diff,
+                     case, {"format": ft, "attributes": diff})
+            p = _copy.deepcopy(twin)
+            snap0 = deep_snapshot(p)
+
+    def export(ft):
+        with tempfile.TemporaryDirectory(prefix="c20-") as tmp:
             path = os.path.join(tmp, "direct." + ft.lower())
             sig = "io.%s:" % WRITERS[ft]
+            spy = None
+            if ft == "STL" and hasattr(io, "deepcopy"):
+                orig = io.deepcopy
+
+                def spy(o, *a, **k):
+                    c = orig(o, *a, **k)
+                    copies.append(c)
+                    return c
+                io.deepcopy = spy
             try:
                 getattr(io, WRITERS[ft])(p, path)
                 files[ft] = open(path, "rb").read()
             except Exception as e:
                 ctx.fail(sig + "raises:" + exc_kind(e), "%s raised %s on a valid polyhedron" % (WRITERS[ft], exc_kind(e)),
                          case, repr(e))
-                continue
-            if snapshot(p) != snap0:
-                ctx.fail(sig + "mutates-shape", "exporting changed the shape's vertices / faces / cached arrays", case, ft)
-                p = build(case)
-                snap0 = snapshot(p)
+                return None
+            finally:
+                if spy is not None:
+                    io.deepcopy = orig
+            changed(sig, ft)
             # ---- save() dispatch: same bytes as the direct writer
             path2 = os.path.join(tmp, "saved." + ft.lower())
+            if use_pathlib:
+                path2 = pathlib.Path(path2)     # "filename (str, pathlib.Path, or os.PathLike)"
             try:
                 p.save(ft, path2)
                 saved = open(path2, "rb").read()
@@ -695,11 +1068,14 @@ def eval_case(ctx, case):
                                                                 saved.decode("utf-8", "replace")))
             except Exception as e:
                 ctx.fail("Polyhedron.save:dispatch:" + ft, "save(%r) raised %s" % (ft, exc_kind(e)), case, repr(e))
-            if snapshot(p) != snap0:
-                ctx.fail("Polyhedron.save:mutates-shape", "save changed the shape", case, ft)
-                p = build(case)
-                snap0 = snapshot(p)
-        # ---- unknown file types
+            changed("Polyhedron.save:", ft)
+        return True
+
+    _, order = read_shuffled({ft: (lambda ft=ft: export(ft)) for ft in FORMATS}, [case["vertices"], case["cls"]])
+    ctx.count("first-export:" + order[0])
+
+    # ---- unknown file types
+    with tempfile.TemporaryDirectory(prefix="c20-") as tmp:
         for ft in case.get("unknown", UNKNOWN_TYPES[:3]):
             path3 = os.path.join(tmp, "unknown.out")
             try:
@@ -711,75 +1087,113 @@ def eval_case(ctx, case):
                 ctx.fail("Polyhedron.save:unknown-type", "save(%r) %s instead of raising ValueError" %
                          (ft, "returned" if kind is None else "raised " + kind), case, ft)
             try:
-                ctx.driver.F("io.save", S(ft), S(ver), S(cls), *mesh_tokens(vt, faces), L([]))
+                ctx.driver.F("io.save", S(ft), S(ver), S(cls), *mesh_tokens([], []), L([]))
                 mk = None
             except ModelRaise as e:
                 mk = e.kind
             if mk != kind:
                 ctx.disagree("io.save:unknown", case, [ft, kind, mk])
+    changed("Polyhedron.save:", "unknown-type")
 
+    # ---------------- C: independent parsers on the real files, against the geometry captured before the first export
+    pairs_all = {}
+    stl_facets = None
+    for ft in FORMATS:
+        if ft not in files:
+            continue
+        pairs, fac = check_file(ctx, case, ft, files[ft], ref)
+        pairs_all[ft] = pairs
+        if ft == "STL":
+            stl_facets = fac
     texts = {}
     for ft, data in files.items():
         try:
             texts[ft] = data.decode("ascii")
         except UnicodeDecodeError:
-            ctx.fail("io.%s:not-ascii" % WRITERS[ft], "file is not ASCII text", case, ft)
+            pass
 
-    # ---------------- C: independent parsers on the real files
-    stl_facets = None
-    checks = [("OBJ", parse_obj, compare_indexed), ("OFF", parse_off, compare_indexed),
-              ("PLY", parse_ply, compare_indexed), ("VTK", parse_vtk, compare_indexed)]
-    for ft, parser, comparer in checks:
-        if ft not in texts:
-            continue
-        sig = "io.%s:" % WRITERS[ft]
-        try:
-            V, F, info = parser(texts[ft])
-            if info.get("stray_f"):
-                ctx.fail("io.to_off:counts-line-stray-f",
-                         "OFF counts line has a stray 'f' before the face count; a reader of the format rejects the file",
-                         case, texts[ft].split("\n")[3])
-            comparer(p, V, F)
-            d = info.get("declared")
-            if ft == "OFF" and d is not None:
-                und = set(frozenset(e) for f in F for e in zip(f, f[1:] + f[:1]))
-                if d != (len(V), len(F), len(und)):
-                    raise Bad("declared-counts", "declared %r, data has %r" % (d, (len(V), len(F), len(und))))
-        except Bad as e:
-            ctx.fail(sig + e.clause, "%s file does not describe the polyhedron (%s)" % (ft, e.clause), case, e.detail)
-    if "STL" in texts:
-        try:
-            stl_facets = parse_stl(texts["STL"])
-            compare_stl(p, stl_facets)
-        except Bad as e:
-            ctx.fail("io.to_stl:" + e.clause, "STL file does not describe the polyhedron (%s)" % e.clause, case, e.detail)
-    if "X3D" in files:
-        try:
-            V, F, info = parse_x3d(files["X3D"])
-            if info["case"]:
-                ctx.fail("io.to_x3d:element-name-case",
-                         "X3D element names are written in the wrong case (XML names are case sensitive); a reader "
-                         "of the X3D XML encoding does not find the X3D / Shape elements",
-                         case, info["case"])
-            compare_expanded(p, V, F)
-        except Bad as e:
-            ctx.fail("io.to_x3d:" + e.clause, "X3D file does not describe the polyhedron (%s)" % e.clause, case, e.detail)
-    if "HTML" in texts:
-        try:
-            V, F, info = parse_html(texts["HTML"])
-            compare_expanded(p, V, F)
-        except Bad as e:
-            ctx.fail("io.to_html:" + e.clause, "HTML file does not describe the polyhedron (%s)" % e.clause, case, e.detail)
+    # every coordinate token of every format, read by a correctly rounding reader, is EXACTLY the coordinate: Python's
+    # float() bit for bit, and the Lean certificate `readsAsB` (exact over Q) on the same tokens
+    uniq = {}
+    for ft, pairs in pairs_all.items():
+        for t, x in pairs:
+            uniq.setdefault((t, bits_of(x)), ft)
+            try:
+                if bits_of(float(t)) != bits_of(x):
+                    raise ValueError
+            except ValueError:
+                ctx.fail("io.%s:coordinates" % WRITERS[ft], "coordinate token %r does not read back as the coordinate" % t,
+                         case, [t, repr(float(x))])
+                break
+    items = list(uniq.items())
+    oks = reads_as(ctx, [(t, struct.unpack(">d", struct.pack(">Q", b))[0]) for (t, b), _ in items])
+    for ((t, b), ft), ok in zip(items, oks):
+        if not ok:
+            ctx.fail("io.%s:token-does-not-read-as-the-coordinate" % WRITERS[ft],
+                     "the exact decimal value of a coordinate token does not round to the coordinate (Lean readsAsB)",
+                     case, [t, "%016x" % b])
+            break
+    ctx.count("tokens:certified", len(items))
+    toks = [t for (t, _), _ in items]
+    ctx.count("tokens:exponent", sum(1 for t in toks if "e" in t))
+    ctx.count("tokens:negative", sum(1 for t in toks if t.startswith("-")))
+    ctx.count("tokens:plain", sum(1 for t in toks if "e" not in t))
 
-    # ---------------- B: the model's text on the same mesh and tokens, byte for byte
-    normals = [list(n) for n, _ in stl_facets] if stl_facets is not None else []
+    # ---------------- no mutation, seen through the public interface: the exported object against a twin that was
+    # built the same way and never exported; an independent centroid / volume
+    if not extreme:
+        try:
+            orng = np.random.default_rng(int(krng.integers(1 << 30)))
+            names = shapes_common.public_properties(type(p))
+            obs_p = shapes_common.observe(p, order_rng=orng, json_names=names[:6])
+            obs_t = shapes_common.observe(twin, order_rng=np.random.default_rng(1), json_names=names[:6])
+            diffs = shapes_common.compare(obs_p, obs_t, size, cond=shapes_common.cond_of(p))
+            if diffs:
+                ctx.fail("Polyhedron.save:mutates-shape:observable",
+                         "after the exports the shape answers differently from a twin that was never exported: %s"
+                         % [d[0] for d in diffs[:5]], case, [d[0] for d in diffs[:8]])
+        except Exception as e:
+            ctx.count("dropped:observe-" + exc_kind(e))
+        try:
+            c_ind, v_ind = independent_centroid_volume(V0, faces)
+            c_now = np.asarray(p.centroid, dtype=float)
+            if not ctx.close_enough(c_now, c_ind, size, 1e-7) or not ctx.close_enough(p.volume, v_ind, size ** 3, 1e-7):
+                ctx.fail("Polyhedron.save:mutates-shape:centroid",
+                         "after the exports centroid / volume are not those of the vertices and faces", case,
+                         [c_now.tolist(), c_ind.tolist(), float(p.volume), float(v_ind)])
+        except Exception as e:
+            ctx.count("dropped:centroid-" + exc_kind(e))
+
+    # ---------------- B: the model's text on the same mesh, byte for byte; tokens and STL normals from the model too
+    flat = [float(c) for c in V0.ravel()]
+    toks_m = model_repr(ctx, flat)
+    vt = [toks_m[3 * i:3 * i + 3] for i in range(len(V0))]
+    vt_impl = [[str(c) for c in v] for v in p.vertices]
+    if vt != vt_impl:
+        k = next(i for i, (a, b) in enumerate(zip(sum(vt, []), sum(vt_impl, []))) if a != b)
+        ctx.disagree("io.repr", case, [sum(vt, [])[k], sum(vt_impl, [])[k]])
     mt = mesh_tokens(vt, faces)
+    cert = ctx.driver.Q("io.coordcert", mt[0], L([[f2h(x), f2h(y), f2h(z)] for x, y, z in V0.tolist()]))[0]
+    if not cert:
+        ctx.disagree("io.coordcert", case, "coordsReadAs is false on the model's own tokens: the hypothesis of the "
+                     "`_exact` theorems does not hold")
+    normals_m = []
+    if stl_facets is not None:
+        for f in faces:
+            r = ctx.driver.F("io.stl_normals", L([[float(a), float(b), float(c)] for a, b, c in V0.tolist()]), L(f))
+            normals_m += [r[3 * i:3 * i + 3] for i in range(len(r) // 3)]
+        printed = [to_floats([n])[0] for n, _ in stl_facets]
+        if len(printed) != len(normals_m) or any(
+                bits_of(a) != bits_of(b) for pn, mn in zip(printed, normals_m) for a, b in zip(pn, mn)):
+            ctx.disagree("io.stl_normals", case, [np.asarray(printed).tolist()[:3], normals_m[:3]])
+        ntoks = model_repr(ctx, [c for n in normals_m for c in n])
+        normals_t = [ntoks[3 * i:3 * i + 3] for i in range(len(normals_m))]
     for ft in FORMATS:
         if ft not in texts:
             continue
         if ft == "STL" and stl_facets is None:
             continue
-        ns = L([[S(a), S(b), S(c)] for a, b, c in normals]) if ft == "STL" else L([])
+        ns = L([[S(a), S(b), S(c)] for a, b, c in normals_t]) if ft == "STL" else L([])
         model = text_of(ctx.driver.F("io.write", FMT_CODE[ft], S(ver), S(cls), *mt, ns))
         if model != texts[ft]:
             ctx.disagree("io.write:" + ft, case, first_diff(texts[ft], model))
@@ -794,12 +1208,39 @@ def eval_case(ctx, case):
     if ne != len(p.edges):
         ctx.disagree("io.edges", case, [ne, len(p.edges)])
 
+    # ---- the heap model of to_stl's preamble against what really happened to the arrays
+    if "STL" in files:
+        convex = cls == "ConvexPolyhedron"
+        cen0 = np.asarray(twin._centroid if convex else twin.centroid, dtype=float)
+        r = ctx.driver.F("io.stl_pre", 0, int(convex), L(flat), L([float(c) for c in cen0]), L([]))
+        it = _It(r)
+        m_verts = [it.n() for _ in range(it.n())]
+        m_cen = [it.n() for _ in range(it.n())]
+        m_vs = [it.n() for _ in range(it.n())]
+        m_copy_cen = [it.n() for _ in range(it.n())]
+        m_same = it.n()
+        now_v = [float(c) for c in np.asarray(p._vertices).ravel()]
+        now_c = [float(c) for c in np.asarray(p._centroid if convex else cen0).ravel()]
+        ok = (m_same is True and [bits_of(a) for a in m_verts] == [bits_of(a) for a in now_v]
+              and [bits_of(a) for a in m_cen] == [bits_of(a) for a in now_c]
+              and [bits_of(a) for a in m_vs] == [bits_of(a) for a in flat])
+        if not ok:
+            ctx.disagree("io.stl_pre", case, "arrays after to_stl differ from the heap model (deepcopy, shift on the copy)")
+        if not copies:
+            ctx.disagree("io.stl_pre:deepcopy", case, "to_stl did not call coxeter.io.deepcopy on the shape")
+        elif convex:
+            cc = [float(c) for c in np.asarray(copies[0]._centroid).ravel()]
+            if [bits_of(a) for a in cc] != [bits_of(a) for a in m_copy_cen]:
+                ctx.disagree("io.stl_pre:copy-centroid", case, [cc, m_copy_cen])
+            if np.asarray(copies[0]._vertices).tobytes() != V0.tobytes():
+                ctx.disagree("io.stl_pre:copy-vertices", case, "the copy's vertices were shifted")
+
     # ---------------- C': the Lean readers (Spec/MeshIO.lean) on the real text
     for ft, code in (("OBJ", 0), ("PLY", 3), ("VTK", 4), ("OFF", 2)):
         if ft not in texts:
             continue
         r = mesh_of(ctx.driver.Q("io.read", code, S(texts[ft])))
-        if r is None or r[0] != vt or r[1] != faces:
+        if r is None or r[0] != vt_impl or r[1] != faces:
             ctx.fail("io.%s:spec-reader" % WRITERS[ft],
                      "the Lean reader of the %s format does not recover the mesh from the real file" % ft, case,
                      None if r is None else "different mesh")
@@ -817,6 +1258,62 @@ def eval_case(ctx, case):
         if r is None or [tuple(x) for x in r] != [tuple(x) for x in want]:
             ctx.fail("io.to_stl:spec-reader", "the Lean STL reader does not recover the facets from the real file",
                      case, None if r is None else "different facets")
+    # the XML formats: the Lean XML parser (the one `xml_parse_render` is about) + the tree readers on the real TEXT
+    want_x = expanded_mesh(vt_impl, faces)
+    for ft, code in (("X3D", 1), ("HTML", 2)):
+        if ft not in texts:
+            continue
+        r = mesh_of(ctx.driver.Q("io.read_xml", code, S(texts[ft])))
+        if r is None or (r[0], r[1]) != want_x:
+            ctx.fail("io.%s:spec-reader" % WRITERS[ft],
+                     "the Lean XML parser + %s reader do not recover the per-corner mesh from the real file" % ft, case,
+                     None if r is None else "different mesh")
+    if "X3D" in texts:
+        strict = mesh_of(ctx.driver.Q("io.read_xml", 0, S(texts["X3D"])))
+        try:
+            wrong_case = bool(parse_x3d(files["X3D"])[2]["case"])
+        except Bad:
+            wrong_case = None
+        if wrong_case is not None and (strict is None) != wrong_case:
+            ctx.disagree("spec.readX3d", case, "Lean case-sensitive X3D reader and the Python X3D parser disagree")
+    if case.get("tamper"):
+        for ft in ("OBJ", "OFF", "PLY", "VTK", "STL", "X3D"):
+            if ft in texts:
+                tamper_test(ctx, case, ft, texts[ft], ref, (vt_impl, faces),
+                            None if stl_facets is None else
+                            [(tuple(n), tuple(t[0]), tuple(t[1]), tuple(t[2])) for n, t in stl_facets])
+
+    # ---------------- history: exports, then a mutator that relies on the cached state, then another export
+    if not extreme:
+        try:
+            shift = krng.normal(size=3) * size * 0.5
+            target = np.asarray(twin.centroid, dtype=float) + shift
+            p.centroid = target
+            twin.centroid = target
+        except Exception as e:
+            ctx.count("dropped:centroid-setter-" + exc_kind(e))
+            return
+        c_ind, _ = independent_centroid_volume(V0, faces)
+        want = V0 + (target - c_ind)
+        ft2 = FORMATS[int(krng.integers(len(FORMATS)))]
+        ctx.count("export-after-move:" + ft2)
+        if not ctx.close_enough(np.asarray(p.vertices), np.asarray(twin.vertices), size + np.linalg.norm(target)) or \
+                not ctx.close_enough(np.asarray(p.vertices), want, size + np.linalg.norm(target), 1e-7):
+            ctx.fail("Polyhedron.save:mutates-shape:later-move",
+                     "after exports, `centroid = c` moves the shape differently from a twin that was never exported "
+                     "(exports left a changed cached centroid behind)", case,
+                     float(np.abs(np.asarray(p.vertices) - np.asarray(twin.vertices)).max()))
+            return
+        with tempfile.TemporaryDirectory(prefix="c20-") as tmp:
+            path = os.path.join(tmp, "moved." + ft2.lower())
+            try:
+                p.save(ft2, path)
+                data = open(path, "rb").read()
+            except Exception as e:
+                ctx.fail("Polyhedron.save:raises-after-move:" + exc_kind(e), "save raised after a centroid move", case,
+                         repr(e))
+                return
+        check_file(ctx, case, ft2, data, Ref(p.vertices, p.faces), emit_known=False, sig_suffix=":after-move")
 
 
 def make_case(rng, ctx):
@@ -831,32 +1328,86 @@ def make_case(rng, ctx):
     cls = "convex" if rng.random() < 0.5 else "poly"
     unknown = [UNKNOWN_TYPES[int(i)] for i in rng.choice(len(UNKNOWN_TYPES), size=2, replace=False)]
     return {"vertices": v.tolist(), "cls": cls, "info": info, "unknown": unknown,
-            "save_model": FORMATS[int(rng.integers(len(FORMATS)))]}
+            "save_model": FORMATS[int(rng.integers(len(FORMATS)))], "tamper": bool(rng.random() < 0.15)}
+
+
+def corner_box_case(rng, ctx):
+    """a box one corner of which is (almost) at the origin: coordinates of magnitude 1e-12..1e-3 next to ones of the
+    size of the box, of either sign (the small ones print in exponent notation with up to 17 digits)"""
+    s = float(10 ** rng.uniform(-3, 6))
+    lo = rng.choice([-1.0, 1.0], size=3) * 10 ** rng.uniform(-12, -3, size=3)
+    ext = s * rng.uniform(1.0, 2.0, size=3) * rng.choice([-1.0, 1.0], size=3)
+    v = np.array([[lo[0] + a * ext[0], lo[1] + b * ext[1], lo[2] + c * ext[2]] for a in (0, 1) for b in (0, 1) for c in (0, 1)])
+    if rng.random() < 0.5:
+        # generic vertices: cut one corner off
+        v = np.vstack([v[1:], v[0] + 0.3 * np.array([ext[0], 0, 0]), v[0] + 0.4 * np.array([0, ext[1], 0]),
+                       v[0] + 0.5 * np.array([0, 0, ext[2]])])
+    ctx.count("kind:corner-box")
+    return {"vertices": v.tolist(), "cls": "convex" if rng.random() < 0.5 else "poly",
+            "info": {"kind": "corner-box", "scale": s}, "unknown": ["obj"], "save_model": "OBJ", "direct": True}
+
+
+def extreme_case(rng, ctx, s):
+    """scale 1e-12 .. 1e12 (outside 1e-6..1e6 only the number formatting clauses are examined)"""
+    v, info = gen.convex_solid(rng, None, scale=1.0, offset_diams=float(rng.uniform(0, 2)))
+    v = v * s
+    ctx.count("kind:extreme-scale")
+    return {"vertices": v.tolist(), "cls": "convex" if rng.random() < 0.5 else "poly",
+            "info": {"kind": "extreme:" + info["kind"], "scale": s}, "unknown": ["obj"], "save_model": "VTK",
+            "extreme": True}
 
 
 def fixed_cases():
-    """exponent notation, both signs, 1e-6 / 1e6 magnitudes on simple solids."""
+    """exponent notation, both signs, 1e-6 / 1e6 magnitudes on simple solids; every octant, both classes."""
     tet = np.array([[1, 1, 1], [1, -1, -1], [-1, 1, -1], [-1, -1, 1]], dtype=float)
     cube = np.array([[x, y, z] for x in (-1, 1) for y in (-1, 1) for z in (-1, 1)], dtype=float)
     out = []
     for name, v in (("tetrahedron", tet), ("cube", cube)):
         for s in (1e-6, 1.0, 1e6, 3.3e-5, 2.5e5):
             for cls in ("convex", "poly"):
+                if name == "cube" and s == 1.0:
+                    continue
                 out.append({"vertices": (v * s + np.array([0.25, -0.5, 0.125]) * s).tolist(), "cls": cls,
                             "info": {"kind": "fixed:" + name, "scale": s}, "unknown": ["obj", ""],
-                            "save_model": "STL"})
+                            "save_model": "STL", "tamper": s == 1e-6, "direct": True})
+    # an irregular wedge (no symmetry, mixed face degrees) well inside each octant, and straddling the origin
+    wedge = np.array([[0, 0, 0], [2, 0, 0], [2, 1.5, 0], [0, 1.5, 0], [0.5, 0.25, 1.0], [1.5, 0.5, 1.25]], dtype=float)
+    k = 0
+    for sx in (-1, 1):
+        for sy in (-1, 1):
+            for sz in (-1, 1):
+                for cls in ("convex", "poly"):
+                    off = np.array([sx, sy, sz]) * np.array([3.0, 2.5, 4.0])
+                    s = [1.0, 1e-3, 1e3, 1e-5][k % 4]
+                    k += 1
+                    out.append({"vertices": ((wedge - wedge.mean(axis=0) + off) * s).tolist(), "cls": cls,
+                                "info": {"kind": "fixed:octant", "octant": [sx, sy, sz], "scale": s},
+                                "unknown": ["Obj"], "save_model": FORMATS[k % 7], "direct": k % 3 == 0})
+    for cls in ("convex", "poly"):
+        out.append({"vertices": (wedge - np.array([0.7, 0.4, 0.3])).tolist(), "cls": cls,
+                    "info": {"kind": "fixed:straddling-origin"}, "unknown": ["obj"], "save_model": "STL", "tamper": True})
     return out
 
 
 def run(ctx):
     if ctx.widen == 1:
+        grammar_selftest(ctx)
         for case in fixed_cases():
             ctx.count("kind:fixed")
             ctx.case(case)
             eval_case(ctx, case)
-    n = ctx.budget(40, 3000)
+    n = ctx.budget(36, 950)
     for _ in range(n):
         case = make_case(ctx.rng, ctx)
+        ctx.case(case)
+        eval_case(ctx, case)
+    for _ in range(ctx.budget(10, 150)):
+        case = corner_box_case(ctx.rng, ctx)
+        ctx.case(case)
+        eval_case(ctx, case)
+    for j in range(ctx.budget(12, 72)):
+        s = [1e-12, 1e12, 1e-9, 1e9, 3e-11, 7e10][j % 6] * float(10 ** ctx.rng.uniform(-0.5, 0.5))
+        case = extreme_case(ctx.rng, ctx, s)
         ctx.case(case)
         eval_case(ctx, case)
 
@@ -865,5 +1416,8 @@ def replay(ctx, payload):
     case = payload.get("case", payload)
     if "broken" in payload and "vertices" not in case:
         case = payload["broken"][0]["case"]
+    if "vertices" not in case:
+        grammar_selftest(ctx)
+        return
     ctx.case(case)
     eval_case(ctx, case)
